@@ -35,6 +35,8 @@ type Conn struct {
 	// ErrWithData: the Read that hands out the last queued bytes also returns the pending EOF /
 	// read error (n > 0 together with err != nil, as io.Reader permits and crypto/tls does)
 	ErrWithData bool
+	rdl, wdl   time.Time // read / write deadline on the virtual clock (zero: none)
+	NDeadlines int       // number of Set*Deadline calls
 	RerrOnce bool // the pending read error is reported by one Read only (a transient condition such as an expired read deadline)
 	ClosedAt time.Duration // virtual time of the first Close
 	CloseBy  string
@@ -74,9 +76,12 @@ func (c *Conn) Read(p []byte) (int, error) {
 	if vs.Aborting() {
 		return 0, ErrClosed
 	}
-	vs.BlockObj("net.read:"+c.Name, c, func() bool { return len(c.in) > 0 || c.eof || c.rerr != nil || c.Closed })
+	vs.BlockObj("net.read:"+c.Name, c, func() bool { return len(c.in) > 0 || c.eof || c.rerr != nil || c.Closed || expired(c.rdl) })
 	if c.Closed {
 		return 0, ErrClosed
+	}
+	if expired(c.rdl) {
+		return 0, TimeoutErr{}
 	}
 	if len(c.in) > 0 {
 		n := copy(p, c.in[0])
@@ -117,6 +122,9 @@ func (c *Conn) Write(p []byte) (int, error) {
 	vs.BlockObj("net.write:"+c.Name, c, func() bool { return true })
 	if c.Closed {
 		return 0, ErrClosed
+	}
+	if expired(c.wdl) {
+		return 0, TimeoutErr{}
 	}
 	if c.nwrites < len(c.WriteDelays) && c.WriteDelays[c.nwrites] > 0 {
 		d := c.WriteDelays[c.nwrites]
@@ -190,6 +198,42 @@ func (c *Conn) Close() error {
 
 func (c *Conn) LocalAddr() net.Addr                { return c.Local }
 func (c *Conn) RemoteAddr() net.Addr               { return c.Remote }
-func (c *Conn) SetDeadline(t time.Time) error      { return nil }
-func (c *Conn) SetReadDeadline(t time.Time) error  { return nil }
-func (c *Conn) SetWriteDeadline(t time.Time) error { return nil }
+// Deadlines run on the virtual clock. Setting one arms a wake-up timer at that instant; a Read
+// (or Write) that finds its deadline reached - when it is called or while it is blocked - fails
+// with a timeout error that, like the real one, says it is temporary.
+func (c *Conn) SetDeadline(t time.Time) error {
+	c.SetReadDeadline(t)
+	return c.SetWriteDeadline(t)
+}
+func (c *Conn) SetReadDeadline(t time.Time) error {
+	c.rdl = t
+	c.arm(t)
+	return nil
+}
+func (c *Conn) SetWriteDeadline(t time.Time) error {
+	c.wdl = t
+	c.arm(t)
+	return nil
+}
+
+func (c *Conn) arm(t time.Time) {
+	if vs.Aborting() {
+		return
+	}
+	c.NDeadlines++
+	vs.Touch(c, "deadline")
+	if !t.IsZero() {
+		if d := t.Sub(vs.TimeNow()); d > 0 {
+			vs.TimeAfter(d) // nobody receives from it: it only makes the virtual clock reach the deadline
+		}
+	}
+}
+
+func expired(t time.Time) bool { return !t.IsZero() && !vs.TimeNow().Before(t) }
+
+// TimeoutErr is what a Read or Write past its deadline returns.
+type TimeoutErr struct{}
+
+func (TimeoutErr) Error() string   { return "i/o timeout" }
+func (TimeoutErr) Timeout() bool   { return true }
+func (TimeoutErr) Temporary() bool { return true }
